@@ -668,7 +668,11 @@ fn do_hl(c: &mut Ctx, h: &Hdr, ops: &[HOp]) {
                 if must_refuse {
                     o.check(r == "eT", cls, &id, || format!("call {}: write_snap({}) after tick {} returned {} instead of TooLowTickNumber {}", i, t, last_tick, r, pm));
                 } else {
-                    o.check(r != "eT" && r != "p", cls, &id, || format!("call {}: write_snap({}) after tick {} returned {} {}", i, t, last_tick, r, pm));
+                    // the raw writer's size limits are panics by design (`expect("too long compression")`, assert_u16):
+                    // they need a payload of more than 21845 bytes (code words have at most 24 bits) and are not tick refusals
+                    let size_panic = r == "p" && (pm.contains("too long compression") || pm.contains("overflow")) && objs.len() >= 300;
+                    if size_panic { o.count("hl-size-limit-panic"); }
+                    o.check(r != "eT" && (r != "p" || size_panic), cls, &id, || format!("call {}: write_snap({}) after tick {} returned {} {}", i, t, last_tick, r, pm));
                 }
                 if r == "o" {
                     last_tick = *t as i64;
@@ -728,6 +732,29 @@ fn make_pool(r: &mut Rng) -> Pool {
         if !objs.is_empty() { types.push((ty, objs)); }
     }
     Pool { types }
+}
+
+/// the same object with every member that accepts it set to a value whose varint takes five bytes
+fn enlarge(obj: SnapObj) -> SnapObj {
+    let ty = obj.obj_type_id();
+    let mut words = obj.encode().to_vec();
+    let mut best = obj;
+    for i in 0..words.len() {
+        let old = words[i];
+        for cand in [0x7f7f_7f7fi32, -0x7f7f_7f7f, 0x0fff_ffff] {
+            words[i] = cand;
+            let mut ex = vec![];
+            let mut up = IntUnpacker::new(&words);
+            match SnapObj::decode_obj(&mut ex, ty, &mut up) {
+                Ok(o) if ex.is_empty() && o.encode() == &words[..] => {
+                    best = o;
+                    break;
+                }
+                _ => words[i] = old,
+            }
+        }
+    }
+    best
 }
 
 fn game_msgs(r: &mut Rng) -> Vec<Vec<u8>> {
@@ -1153,6 +1180,34 @@ fn main() {
         do_hl(&mut c, &plain_hdr(), &[HOp::Snap(1, many.clone()), HOp::Snap(2, vec![(o1, 2)])]);
         let full: Vec<(SnapObj, u16)> = (0..1024u16).map(|i| (pool.types[4].1[0], i)).collect();
         do_hl(&mut c, &plain_hdr(), &[HOp::Snap(1, full), HOp::Snap(2, vec![(o1, 2)])]);
+        // TooLargeSnap: a snapshot the builder accepts (at most 65536 bytes of ints) whose varint packing is longer than `buf`
+        let ci = pool.types.iter().find(|t| t.0 == TypeId::Ordinal(11)).map(|t| enlarge(t.1[0])).unwrap();
+        let nbig = ci.encode().iter().filter(|v| v.unsigned_abs() >= 1 << 27).count();
+        c.o.sample(format!("hl enlarged ClientInfo: {} of {} ints need five bytes", nbig, ci.encode().len()));
+        let big: Vec<(SnapObj, u16)> = (0..850u16).map(|i| (ci, i)).collect();
+        do_hl(&mut c, &plain_hdr(), &[HOp::Snap(1, vec![(o1, 1)]), HOp::Snap(2, big.clone()), HOp::Snap(2, vec![(o1, 1)]), HOp::Msg(msgs[0].clone()), HOp::Snap(3, vec![(o1, 1)])]);
+        do_hl(&mut c, &plain_hdr(), &[HOp::Snap(1, big.clone()), HOp::Snap(7, vec![])]);
+        // a snapshot just below the limit goes through
+        let fit: Vec<(SnapObj, u16)> = (0..400u16).map(|i| (ci, i)).collect();
+        do_hl(&mut c, &plain_hdr(), &[HOp::Snap(1, fit.clone()), HOp::Snap(2, fit), HOp::Snap(3, vec![(o1, 1)])]);
+        // 600 of them fit `buf` but not the raw writer's compression buffer: its `expect("too long compression")`
+        let fit600: Vec<(SnapObj, u16)> = (0..600u16).map(|i| (ci, i)).collect();
+        do_hl(&mut c, &plain_hdr(), &[HOp::Snap(1, vec![(o1, 1)]), HOp::Snap(2, fit600)]);
+        // TooLongNetMsg: a chat message of 70000 bytes
+        {
+            use libtw2_gamenet_ddnet::msg::game::SvChat;
+            let text = vec![b'a'; 70000];
+            let m = Game::SvChat(SvChat { team: 0, client_id: 1, message: &text });
+            let mut v: Vec<u8> = Vec::with_capacity(1 << 17);
+            with_packer(&mut v, |p| m.encode(p).map(|_| ())).unwrap();
+            do_hl(&mut c, &plain_hdr(), &[HOp::Snap(1, vec![(o1, 1)]), HOp::Msg(v), HOp::Msg(msgs[0].clone()), HOp::Snap(2, vec![(o1, 1)])]);
+            // 65000 bytes fit
+            let text = vec![b'b'; 65000];
+            let m = Game::SvChat(SvChat { team: 0, client_id: 1, message: &text });
+            let mut v: Vec<u8> = Vec::with_capacity(1 << 17);
+            with_packer(&mut v, |p| m.encode(p).map(|_| ())).unwrap();
+            do_hl(&mut c, &plain_hdr(), &[HOp::Snap(1, vec![(o1, 1)]), HOp::Msg(v), HOp::Msg(msgs[0].clone()), HOp::Snap(2, vec![(o1, 1)])]);
+        }
     }
     c.o.finish();
 }
